@@ -254,3 +254,15 @@ fn c09_new_sorted() {
         core::mem::forget(rl);
     }
 }
+
+// a zero limit anywhere in the list is rejected, whatever the periods (two limits, any order after sorting)
+#[kani::proof]
+#[kani::stub(alloc::fmt::format, crate::verif_env::fmt_stub)]
+#[kani::unwind(3)]
+fn c19_rl_zero_among_two() {
+    let zero_first: bool = kani::any();
+    let raw = if zero_first { [(0usize, String::new()), (1usize, String::new())] } else { [(1usize, String::new()), (0usize, String::new())] };
+    let r = RateLimit::new(&raw);
+    assert!(r.is_err(), "C19: a rate limit of zero requests per period was accepted (no request can ever be sent)");
+    core::mem::forget(r);
+}
